@@ -4,7 +4,7 @@
 # All twenty properties are run by one process (`-prop all`: one load of the repository, a fresh walker and report per property).
 HERE=$(cd "$(dirname "$0")/.." && pwd)
 . "$HERE/bin/env.sh"
-patchf=$1
+patchf=$(readlink -f "$1")
 BIN="$HERE/bin/sebufcheck"
 if [ ! -x "$BIN" ] || [ -n "$(find "$HERE/checker" -newer "$BIN" -name '*.go' 2>/dev/null | head -1)" ]; then
   (cd "$HERE/checker" && go build -o "$BIN" .) 1>&2
